@@ -21,6 +21,7 @@ RULE = ("grid leg: representative bin tables (one per class) with n<=4 bins x EV
         "other at the SAME URI in one process. Oracle: the input itself (pixels()[:] lists exactly the input records once each in order; "
         "matrix(balance=False) dense and sparse == symmetric completion / stored matrix; info returns metadata and assembly), "
         "plus schema validator V on every file. Non-trivial: >=1 pixel stored. Distinct by construction.")
+EXTRA_LEGS = 'idtypes: bin-id columns of every integer dtype on tables just beyond the point where bin1*n_bins+bin2 leaves the dtype (13 bins for int8 ... 65,600 for uint32), rows sorted / reversed / dict / chunks / reversed chunks with ensure_sorted through the one- and two-pass route, values of both signs; binsform: the bin table handed over with other row labels, coordinate dtypes, chromosome-column types and extra columns; million: one 1,051,975-pixel matrix read back around record 1e6.'
 BOUNDS = {"quick": "grid: BTrep(3,4) tables, all upper patterns n<=4 on 2 tables per n (others: structured), all square patterns n<=3 on 1 table per n; forms: 16 base points",
           "thorough": "grid: all upper patterns n<=4 on every BTrep(3,4) table, all square n<=3 on every table, structured n=5 on every BT(3,5) class; forms: 40 base points"}
 ASSUMPTIONS = ["values are small integers / dyadic rationals, exact in every dtype used; dtype identity of what comes back is not compared",
